@@ -1,5 +1,6 @@
 // Verus unit (C05): the collected result does not depend on the arrival order of statistics messages.
-//  (1) ErrorStats::finalize_stats (extracted verbatim) always sorts the error list (also when muted);
+//  (1) ErrorStats::finalize_stats (extracted verbatim) always sorts the error list (also when muted), and does so
+//      before anything is derived from it (staves with errors, distinct error codes);
 //  (2) sorting by a total order is canonical: any two arrival orders (same multiset) give the same list;
 //  (3) counters accumulated by a commutative step are permutation invariant.
 // The per-kind accumulation steps (trigger counters, ALPIDE statistics, numeric counters) are proved
@@ -23,10 +24,12 @@ impl ErrorStats {
     { unimplemented!() }
     #[verifier::external_body]
     fn check_errors_for_stave_id(&mut self, layer_staves_seen: &[(u8, u8)])
+        requires old(self).sorted@, // [C05] the list of staves with errors is built by walking the error list: it must be the sorted (canonical) list, not the arrival order
         ensures final(self).stave_ids_checked@, final(self).sorted == old(self).sorted, final(self).codes_done == old(self).codes_done
     { unimplemented!() }
     #[verifier::external_body]
     fn process_unique_error_codes(&mut self)
+        requires old(self).sorted@, // [C05] the distinct error codes are collected in order of first appearance: in the sorted (canonical) list
         ensures final(self).codes_done@, final(self).sorted == old(self).sorted, final(self).stave_ids_checked == old(self).stave_ids_checked
     { unimplemented!() }
 
